@@ -2,7 +2,7 @@
 // if A's poll is preempted between its failed try_acquire and the poll of its (already notified) listener,
 // both notify(1) calls are absorbed by A's entry, A then consumes the notification, acquires, and nobody
 // wakes B although a permit is available.
-use async_lock::{Mutex, RwLock, RwLockWriteGuard, Semaphore};
+use async_lock::{Barrier, Mutex, OnceCell, RwLock, RwLockWriteGuard, Semaphore};
 use loom::sync::atomic::{AtomicBool, Ordering};
 use loom::sync::Arc;
 use std::future::Future;
@@ -267,6 +267,109 @@ fn mutex_fair_race() {
     });
 }
 
+/// C06, schedule half: a writer unlocks while a waiting reader is being polled on another thread and a second reader
+/// waits: with no write guard alive and nothing woken left unpolled no read() may be pending.
+fn rw_reader_chain() {
+    let mut b = loom::model::Builder::new();
+    b.preemption_bound = Some(3);
+    b.check(|| {
+        EXECUTIONS.fetch_add(1, std::sync::atomic::Ordering::Relaxed);
+        let l = std::sync::Arc::new(RwLock::new(0u32));
+        let w = l.try_write_arc().unwrap();
+        let mut r1 = Task::new(l.read_arc());
+        let mut r2 = Task::new(l.read_arc());
+        r1.poll();
+        r2.poll();
+        assert!(r1.pending() && r2.pending());
+        let t = loom::thread::spawn(move || drop(w)); // write_unlock: clears the bit, notify(1), releases the mutex
+        r1.poll(); // a spurious poll of the first reader races with the unlock
+        t.join().unwrap();
+        loop {
+            let before = (r1.pending(), r2.pending());
+            r1.settle();
+            r2.settle();
+            if !(r1.pending() && r1.woken()) && !(r2.pending() && r2.woken()) && before == (r1.pending(), r2.pending()) {
+                break;
+            }
+        }
+        if r1.pending() || r2.pending() {
+            panic!("LOOM-VIOLATION rw_reader_chain: lost wake-up: no write guard is alive, no writer waits, every woken task has been polled again, a read() is pending (r1 = {}, r2 = {})", r1.pending(), r2.pending());
+        }
+        drop(r1);
+        drop(r2);
+    });
+}
+
+/// C04 / C08, schedule half: two get_or_init futures polled on two threads: the closure runs once, both obtain the same
+/// value, nobody is left pending.
+fn once_init_race() {
+    let mut b = loom::model::Builder::new();
+    b.preemption_bound = Some(3);
+    b.check(|| {
+        EXECUTIONS.fetch_add(1, std::sync::atomic::Ordering::Relaxed);
+        let cell = std::sync::Arc::new(OnceCell::<u32>::new());
+        let runs = std::sync::Arc::new(std::sync::atomic::AtomicUsize::new(0));
+        let (c1, n1) = (cell.clone(), runs.clone());
+        let (c2, n2) = (cell.clone(), runs.clone());
+        let mut t1 = Task::new(async move {
+            *c1.get_or_init(|| async { n1.fetch_add(1, std::sync::atomic::Ordering::SeqCst); 7u32 }).await
+        });
+        let mut t2 = Task::new(async move {
+            *c2.get_or_init(|| async { n2.fetch_add(1, std::sync::atomic::Ordering::SeqCst); 9u32 }).await
+        });
+        let t = loom::thread::spawn(move || {
+            t2.poll();
+            t2
+        });
+        t1.poll();
+        let mut t2 = t.join().unwrap();
+        for _ in 0..4 {
+            t1.settle();
+            t2.settle();
+        }
+        if t1.pending() || t2.pending() {
+            panic!("LOOM-VIOLATION once_init_race: a get_or_init future is pending although the cell is initialised and every woken task has been polled again");
+        }
+        let n = runs.load(std::sync::atomic::Ordering::SeqCst);
+        if n != 1 || t1.out != t2.out || cell.get().copied() != t1.out {
+            panic!("LOOM-VIOLATION once_init_race: the initialiser ran {} times; values {:?} {:?} cell {:?}", n, t1.out, t2.out, cell.get());
+        }
+        drop(t1);
+        drop(t2);
+    });
+}
+
+/// C09, schedule half: two wait() futures of a Barrier of 2 polled on two threads: both complete, exactly one leads.
+fn barrier_race() {
+    let mut b = loom::model::Builder::new();
+    b.preemption_bound = Some(3);
+    b.check(|| {
+        EXECUTIONS.fetch_add(1, std::sync::atomic::Ordering::Relaxed);
+        let bar = std::sync::Arc::new(Barrier::new(2));
+        let (b1, b2) = (bar.clone(), bar.clone());
+        let mut t1 = Task::new(async move { b1.wait().await.is_leader() });
+        let mut t2 = Task::new(async move { b2.wait().await.is_leader() });
+        let t = loom::thread::spawn(move || {
+            t2.poll();
+            t2
+        });
+        t1.poll();
+        let mut t2 = t.join().unwrap();
+        for _ in 0..4 {
+            t1.settle();
+            t2.settle();
+        }
+        if t1.pending() || t2.pending() {
+            panic!("LOOM-VIOLATION barrier_race: both parties arrived, every woken task has been polled again, a wait() is pending");
+        }
+        if t1.out.unwrap() == t2.out.unwrap() {
+            panic!("LOOM-VIOLATION barrier_race: leaders: {:?} {:?} (exactly one expected)", t1.out, t2.out);
+        }
+        drop(t1);
+        drop(t2);
+    });
+}
+
 fn main() {
     let which = std::env::args().nth(1).unwrap_or_else(|| "all".to_string());
     let tests: Vec<(&str, fn())> = vec![
@@ -275,6 +378,9 @@ fn main() {
         ("sem_try_race", sem_try_race),
         ("rw_downgrade_race", rw_downgrade_race),
         ("mutex_fair_race", mutex_fair_race),
+        ("rw_reader_chain", rw_reader_chain),
+        ("once_init_race", once_init_race),
+        ("barrier_race", barrier_race),
     ];
     for (name, f) in tests {
         if which == "all" || which == name {
